@@ -99,7 +99,7 @@ func (c *FCtx) bodyEnv(st *State, pos token.Pos) *CEnv {
 	return env
 }
 
-var calledRe = regexp.MustCompile(`called\(\s*"([^"]+)"\s*,\s*([0-9]+)\s*\)`)
+var calledRe = regexp.MustCompile(`(?:called|ncalls)\(\s*"([^"]+)"\s*,\s*([0-9]+)\s*\)`)
 
 // calledKeys: the call sites ("pkg.F#k") a contract refers to through `called("pkg.F", k)`
 func calledKeys(con *Contract) []string {
@@ -121,6 +121,9 @@ func calledKeys(con *Contract) []string {
 	for _, ls := range con.Loops {
 		scan(ls.Invs)
 		scan(ls.Asserts)
+	}
+	for _, as := range con.Afters {
+		scan(as)
 	}
 	return out
 }
@@ -325,9 +328,9 @@ func (c *FCtx) run(alias [2]string) {
 	// ghost call flags for `called("pkg.F", k)` in exit / ensures clauses: false at entry, set at the call site
 	c.ghosts = map[string]*types.Var{}
 	for _, key := range calledKeys(con) {
-		g := types.NewVar(token.NoPos, fi.Pkg.Types, "called$"+key, types.Typ[types.Bool])
+		g := types.NewVar(token.NoPos, fi.Pkg.Types, "ncalls_"+strings.NewReplacer(".", "_", "#", "_", "/", "_").Replace(key), types.Typ[types.Int])
 		c.ghosts[key] = g
-		c.declare(st, g, boolSV(False()))
+		c.declare(st, g, intSV(Num(0)))
 	}
 	c.exitApplied = map[int]int{}
 	flows := c.execBlock(st, fi.Decl.Body.List)
